@@ -1,0 +1,30 @@
+//go:build verif
+
+// Read-only accessors for /verif trace recording (build tag verif only).
+
+package proportion
+
+import (
+	"github.com/NVIDIA/KAI-scheduler/pkg/scheduler/api/common_info"
+	"github.com/NVIDIA/KAI-scheduler/pkg/scheduler/framework"
+	rs "github.com/NVIDIA/KAI-scheduler/pkg/scheduler/plugins/proportion/resource_share"
+)
+
+// VerifQueues returns the plugin's live per-queue attributes (Allocated, AllocatedNotPreemptible,
+// Request, FairShare, Deserved ...), or nil if p is not the proportion plugin.
+func VerifQueues(p framework.Plugin) map[common_info.QueueID]*rs.QueueAttributes {
+	pp, ok := p.(*proportionPlugin)
+	if !ok {
+		return nil
+	}
+	return pp.queues
+}
+
+// VerifTotals returns the total resources and k-value the plugin divided in this session.
+func VerifTotals(p framework.Plugin) (rs.ResourceQuantities, float64) {
+	pp, ok := p.(*proportionPlugin)
+	if !ok {
+		return nil, 0
+	}
+	return pp.totalResource, pp.kValue
+}
